@@ -140,6 +140,8 @@ pub fn queries(r: &mut Rng, out: &mut String, t: &str, c: &Ctx) {
         };
         writeln!(out, "tselect {} {}", t, n).unwrap();
     }
+    // queries derived from the runs of the value itself
+    writeln!(out, "tprobe {}", t).unwrap();
 }
 
 fn append_args(r: &mut Rng, c: &Ctx) -> String {
